@@ -17,7 +17,8 @@ class DistinctRewriteConfig : public DefaultRewriterConfig {
 public:
     DistinctRewriteConfig(Logic & logic) : logic(logic) {}
 
-    bool previsit(PTRef term) override { return logic.hasSortBool(term); }
+    // distinct can also occur below non-Boolean terms, as an argument of an uninterpreted function
+    bool previsit(PTRef) override { return true; }
 
     PTRef rewrite(PTRef ptr) override {
         if (logic.isDisequality(ptr) and doRewriteDistinct(ptr)) {
